@@ -24,6 +24,7 @@ SOURCES = [
 KNOWN_CLASS = "relativistic K-matrix with a pole mass below a channel threshold"
 OBSERVATION_CLASS = ("relativistic K-matrix, angular momentum >= 1, pole mass below a channel threshold with a phase-space "
                      "factor that is real and positive there: FormFactor(m_R^2) is not real")
+OBSERVATION_SIGNATURE = {"class": OBSERVATION_CLASS, "rho_at_pole_real_positive": True, "ff_at_pole_real": False}
 VIOLATION_CLASS = ("relativistic K-matrix not unitary/symmetric although the phase-space factor passed to formulate() "
                    "is real and positive, and the form factors are real, at s and at every pole mass")
 
@@ -205,6 +206,21 @@ def guard_class(c: dict) -> str:
     return "hypotheses of the theorems hold"
 
 
+def _file(chk, rec: dict, gc: str, bad: list, known: list) -> None:
+    """A failing input goes to the verdict (`bad`), to the known finding (`known`, reported last), or —
+    form factor at a pole mass not real, notes/findings_C09.md F1: genuine behaviour of the unchanged
+    library that the known-finding entry does not describe — into the evidence as an observation, out
+    of the verdict, unless known_findings.json has an entry for exactly that signature."""
+    if gc == "hypotheses of the theorems hold":
+        bad.append(rec)
+    elif gc == "rho(m_R^2) not real positive" or chk.match_known(OBSERVATION_SIGNATURE) is not None:
+        known.append(rec)
+    else:
+        obs = chk.coverage.setdefault("observations", [])
+        if len(obs) < 6:
+            obs.append({**OBSERVATION_SIGNATURE, **rec})
+
+
 def _judge(chk, case: dict, key, bad: list, known: list, stats: dict) -> None:
     """Evaluate the statement of C09 at one point and file the result."""
     case.update(classify(case))
@@ -227,18 +243,7 @@ def _judge(chk, case: dict, key, bad: list, known: list, stats: dict) -> None:
     if ratio > 1:
         st["failing"] += 1
         what = "S†S ≠ 1" if r["unitarity_defect"] > tol else "T ≠ Tᵀ"
-        rec = {"what": what, **case, **r, "tolerance": tol}
-        if gc == "hypotheses of the theorems hold":
-            bad.append(rec)
-        elif gc == "rho(m_R^2) not real positive":
-            known.append(rec)
-        else:
-            # genuine behaviour of the unchanged library that the known-finding entry does not describe
-            # (notes/findings_C09.md): kept out of the verdict, recorded as an observation
-            obs = chk.coverage.setdefault("observations", [])
-            if len(obs) < 6:
-                obs.append({"class": OBSERVATION_CLASS, **{k: rec[k] for k in rec if k != "values"},
-                            "values": rec["values"]})
+        _file(chk, {"what": what, **case, **r, "tolerance": tol}, gc, bad, known)
     else:
         st["worst_defect_over_tol"] = max(st["worst_defect_over_tol"], ratio)
 
@@ -404,12 +409,7 @@ def three_channel_oracle(chk, rng, cap_s: int = 1200):
             if r["unitarity_defect"] > tol or r["symmetry_defect"] > tol:
                 case.update(classify(case))
                 rec = {"what": "S†S ≠ 1" if r["unitarity_defect"] > tol else "T ≠ Tᵀ", **case, **r, "tolerance": tol}
-                if guard_class(case) == "rho(m_R^2) > 0 but FormFactor(m_R^2) not real":
-                    obs = chk.coverage.setdefault("observations", [])
-                    if len(obs) < 6:
-                        obs.append({"class": OBSERVATION_CLASS, **rec})
-                else:
-                    bad.append(rec)
+                _file(chk, rec, guard_class(case), bad, bad)
     finally:
         import shutil
 
@@ -486,7 +486,7 @@ def signature_of(f: dict) -> dict:
         if not c["rho_at_pole_real_positive"]:
             return {"class": KNOWN_CLASS, "rho_at_pole_real_positive": False}
         if not c["ff_at_pole_real"]:
-            return {"class": OBSERVATION_CLASS, "rho_at_pole_real_positive": True, "ff_at_pole_real": False}
+            return dict(OBSERVATION_SIGNATURE)
         return {"class": VIOLATION_CLASS, "what": f.get("what"), "rho_at_pole_real_positive": True,
                 "phsp": f.get("phsp"), "sub_threshold_pole": bool(f.get("sub_threshold_pole"))}
     if "kind" in f:
@@ -560,11 +560,12 @@ PROP = KProperty(
     extra_regenerate=n3_regenerate,
     trusted=(
         "phase-space factors and form factors are leaves of the Lean model (their reality/positivity above threshold are hypotheses; C11/C12 are about them)",
+        "occurrence sets are collected by a preorder traversal of the real sympy objects (tools/corr/C09_occ.py occurrences)",
     ),
 )
 
 MANIFEST = {
-    "technique": "Lean 4 theorems (Mathlib matrices, all sizes) + definitions regenerated from kmatrix.py (translator), Float-twin validation against the real lambdified code, independent numeric oracle on formulate()",
+    "technique": "Lean 4 theorems (Mathlib matrices, all sizes) + definitions and an occurrence table regenerated from kmatrix.py (translator, formulate() called with a marker phase-space implementation), Float-twin validation against the real lambdified code, independent numeric oracle on formulate()",
     "design_ref": "DESIGN.md §3 C09",
     "text": (
         "Proof. For EVERY number of channels (Matrix n n ℂ, any finite n) and every finite pole set: K Hermitian ⇒ 1−iK invertible "
@@ -572,25 +573,37 @@ MANIFEST = {
         "ρ positive diagonal and K̂ Hermitian ⇒ √ρK̂(1−iρK̂)⁻¹√ρ = K'(1−iK')⁻¹ with K' = √ρK̂√ρ, hence unitary/symmetric; the pole "
         "parametrisation Σ_R g_Ri g_Rj/(m_R²−s) is real symmetric for real g (Finset sum, any number of poles). Tied to the source: the "
         "entries of formulate(parametrize=False) for n = 1, 2 (both classes, T̂ and T), the parametrisations (n_R = 1..4) and the full "
-        "formulate(n, n_R) results for n, n_R ∈ {1,2} are re-translated on every run and 71 theorems are re-checked: the "
+        "formulate(n, n_R) results for n, n_R ∈ {1,2} are re-translated on every run and 73 theorems are re-checked: the "
         "regenerated entries solve E(1−iK) = K resp. Ê(1−iρK̂) = K̂ (polynomial identities mod i² = −1) and therefore ARE the abstract "
         "formula wherever det ≠ 0; T = (√ρ)*T̂√ρ; the regenerated parametrisations are symmetric and real (non-negative widths; for the "
-        "relativistic case under the guard ρ_i(m_R²) > 0, i.e. poles above thresholds) and — both classes, n = n_R = 2 — ARE instances "
-        "of the all-poles formula with g_Ri = γ_Ri√(m_RΓ_Ri(s)) (nrK22_eq_poleK, relK22_eq_poleK), so that the all-n/all-poles "
-        "theorems apply to the source's own parametrization (relK22_all_poles_unitary_symmetric); formulate = matrix expression ∘ "
-        "parametrisation; hence formulate(n, n_R) is unitary and symmetric. Thorough tier: the same entry-level theorems for n = 3 "
+        "relativistic case under the guard ρ_i(m_R²) > 0 for the phase-space factor in use, real form factors) and — both classes, "
+        "n = n_R = 2 — ARE instances of the all-poles formula with g_Ri = γ_Ri√(m_RΓ_Ri(s)) (nrK22_eq_poleK, relK22_eq_poleK), so that "
+        "the all-n/all-poles theorems apply to the source's own parametrization (relK22_all_poles_unitary_symmetric); formulate = matrix "
+        "expression ∘ parametrisation; hence formulate(n, n_R) is unitary and symmetric. The guard is about ONE phase-space "
+        "implementation, the caller's: formulate() is translated from calls with a marker implementation (any other class / angular "
+        "momentum / radius inside the result, also inside an evaluated EnergyDependentWidth, makes the source untranslatable), and the "
+        "regenerated occurrence table (both classes, n, n_R ∈ {1,2}, return_t_hat on/off; itemised per pole × channel: ρ nodes of the "
+        "matrix expression, every width's phsp_factor / L / d, the ρ and form-factor nodes inside every evaluated width) contains exactly "
+        "the passed arguments (formulate_forwards_arguments, decide). Thorough tier: the same entry-level theorems for n = 3 "
         "(Props/C09N3, 14 theorems; the 3×3 symbolic inverse is extracted in a time-capped subprocess) and the full formulate(n, n_R) "
-        "for n ∈ {1,2}, n_R ∈ {3,4} (Props/C09P34, 32 theorems) — 117 theorems in total. Bounded part: full formulate with n = 3 only "
-        "numerically (thorough oracle, n_R ≤ 2); n_R = 3, 4 full formulate in the thorough tier only (quick: parametrisation level); the "
-        "poleK instance theorems are for n = n_R = 2; form factors and phase-space factors are leaves with sign hypotheses. Known "
-        "finding: the relativistic K-matrix with a pole mass below a channel threshold is not unitary (kernel-checked witness "
-        "relForm11_witness_subthreshold; the oracle classifies such inputs by signature, any other failing input is a violation)."
+        "for n ∈ {1,2}, n_R ∈ {3,4} (Props/C09P34, 32 theorems) — 119 theorems in total. Oracle (S†S = 1, T = Tᵀ on the real "
+        "formulate()): a sweep over every phase-space implementation that is real above threshold × pole 1 above / between / below the "
+        "thresholds, random configurations, and the forwarding statement for every implementation of dynamics/phasespace.py with symbolic "
+        "and numeric L, d. Each input is classified by evaluating the hypotheses of the theorems for the caller's arguments (ρ_i(s), "
+        "ρ_i(m_R²) real positive, form factors real): where they hold a failure is a violation — in particular for poles below a "
+        "threshold with PhaseSpaceFactorAbs. Bounded part: full formulate with n = 3 only numerically (thorough oracle, n_R ≤ 2); "
+        "n_R = 3, 4 full formulate in the thorough tier only (quick: parametrisation level); the poleK instance theorems are for "
+        "n = n_R = 2; form factors and phase-space factors are leaves with sign hypotheses. Known finding: the relativistic K-matrix with "
+        "a pole mass below a channel threshold is not unitary when ρ(m_R²) of the factor in use is not real positive (PhaseSpaceFactor, "
+        "PhaseSpaceFactorComplex; kernel-checked witness relForm11_witness_subthreshold; matched by signature only there). Observation "
+        "(notes/findings_C09.md F1, not in the verdict): PhaseSpaceFactorAbs, L ≥ 1, pole between two thresholds — FormFactor(m_R²)² < 0."
     ),
     "level_note": (
         "Trusted: Lean kernel + Mathlib (axioms propext, Classical.choice, Quot.sound); the sympy->Lean translator incl. the leaf "
         "abstraction of FormFactor/phase-space factor nodes (validated each run: leaf values computed by the real code are fed to "
-        "the Lean Float twin and the result is compared with the real lambdified formulate/parametrization); sympy's symbolic "
-        "matrix inverse, doit/xreplace and numpy are executed, not modelled. Lean's x⁻¹ is total, so statements at s = m_R² are "
-        "about that convention."
+        "the Lean Float twin and the result is compared with the real lambdified formulate/parametrization); the occurrence collector "
+        "(tools/corr/C09_occ.py: preorder traversal, EnergyDependentWidth attributes and one evaluate()); the marker phase-space class is "
+        "defined by the harness with ampform's public @unevaluated decorator; sympy's symbolic matrix inverse, doit/xreplace and numpy "
+        "are executed, not modelled. Lean's x⁻¹ is total, so statements at s = m_R² are about that convention."
     ),
 }
